@@ -58,6 +58,7 @@ type Runner struct {
 	specRec  *specRecorder
 	occ      map[string]int
 	inWait   bool
+	noMerge  bool
 }
 
 type LoopInfo struct {
@@ -441,7 +442,7 @@ func (r *Runner) step(st *State) {
 		p := r.placeOf(addr)
 		r.guardCheck(st, p, true, x.Pos())
 		r.escapeCheck(st, p, val)
-		st.store(p, val)
+		r.storeChecked(st, p, val, x.Pos())
 	case *ssa.UnOp:
 		r.execUnOp(st, f, x)
 	case *ssa.BinOp:
@@ -480,7 +481,7 @@ func (r *Runner) step(st *State) {
 		ref := st.allocRef("chan")
 		f.regs[x] = Val{T: x.Type(), C: []Term{ref}}
 		st.nonnil[ref.S] = true
-		st.ghost["closed:"+ref.S] = False
+		st.assume(Not(Select(r.closedHeap(st), ref))) // a new channel is open (revealed)
 	case *ssa.MakeInterface:
 		f.regs[x] = r.makeIface(st, x.Type(), r.operand(st, x.X))
 	case *ssa.MakeClosure:
@@ -593,6 +594,9 @@ func (r *Runner) branch(st *State, f *Frame, c Term, tb, fb *ssa.BasicBlock) {
 		return
 	case "false":
 		r.gotoBlock(st, fb)
+		return
+	}
+	if r.branchMerged(st, f, c, tb, fb) {
 		return
 	}
 	other := r.fork(st)
